@@ -42,7 +42,7 @@ func readMachO(data []byte) (*Payload, error) {
 			p.SigItems = append(p.SigItems, "LC_CODE_SIGNATURE")
 			pos += len(raw)
 			continue
-		case cmd == uint32(macho.LoadCmdSegment64) && cstr(raw[8:24]) == "__LINKEDIT":
+		case cmd == uint32(macho.LoadCmdSegment64) && len(raw) >= 72 && cstr(raw[8:24]) == "__LINKEDIT":
 			off, sz := int64(bo.Uint64(raw[40:])), int64(bo.Uint64(raw[48:]))
 			linkEnd = off + sz
 			for i := 32; i < 40; i++ { // vmsize
@@ -51,7 +51,7 @@ func readMachO(data []byte) (*Payload, error) {
 			for i := 48; i < 56; i++ { // filesize
 				raw[i] = 0
 			}
-		case cmd == uint32(macho.LoadCmdSegment) && cstr(raw[8:24]) == "__LINKEDIT":
+		case cmd == uint32(macho.LoadCmdSegment) && len(raw) >= 56 && cstr(raw[8:24]) == "__LINKEDIT":
 			off, sz := int64(bo.Uint32(raw[32:])), int64(bo.Uint32(raw[36:]))
 			linkEnd = off + sz
 			for i := 28; i < 32; i++ {
